@@ -8,7 +8,8 @@ TRUSTED = BASE_TRUSTED + [
 RULE = ("encode for every m in 0..q+2 and decode for every group member on all small parameter sets (both backends), each "
         "compared with the Gallina model; boundary values 0,1,q-3,q-2 | q-1,q,q+1,p,2^2048 and random at 62/2048 bits; "
         "serialization of every encoded element; random plaintexts / elements from the library's own samplers under "
-        "scripted RNG (num-bigint sampler compared with the byte-level model) must be encodable; ristretto boundary strings")
+        "scripted RNG (num-bigint sampler compared with the byte-level model) must be encodable; ristretto boundary strings"
+        " Added in session 3: encode -> wire -> decode with parameter sets and ristretto interleaved in one process;")
 
 
 def run(env):
